@@ -21,8 +21,10 @@ type resolveLine struct {
 	Opts struct {
 		Hmna bool     `json:"hmna"`
 		Hfb  bool     `json:"hfb"`
-		Icpt []string `json:"icpt"`
+		Icpt   []string `json:"icpt"`
+		Strict bool     `json:"strict"`
 	} `json:"opts"`
+	NQ   []int            `json:"nq"` // per requested path: the path it is resolved as (its normal form under the router's mode)
 	EffQ int              `json:"effq"`
 	Res  map[string][]int `json:"res"`
 }
@@ -144,10 +146,10 @@ func resolveRun(st *resolveState, l resolveLine) {
 		texts[i] = strings.Join(e.Ms, ",") + " " + st.hdr.Pool[e.P-1]
 	}
 	icpt := tokStr(l.Opts.Icpt)
-	caseDoc := map[string]any{"table": texts, "hmna": l.Opts.Hmna, "hfb": l.Opts.Hfb, "intercept": icpt}
+	caseDoc := map[string]any{"table": texts, "hmna": l.Opts.Hmna, "hfb": l.Opts.Hfb, "intercept": icpt, "strict": l.Opts.Strict}
 	report := func(aspect, what string, extra map[string]any) {
 		d := map[string]any{"kind": "resolve", "aspect": aspect, "table": texts, "hmna": l.Opts.Hmna, "hfb": l.Opts.Hfb,
-			"intercept": icpt, "what": what}
+			"intercept": icpt, "strict": l.Opts.Strict, "what": what}
 		for k, v := range extra {
 			d[k] = v
 		}
@@ -173,10 +175,13 @@ func resolveRun(st *resolveState, l resolveLine) {
 		if len(l.Opts.Icpt) > 0 {
 			opts = append(opts, rux.InterceptAll(icpt))
 		}
-		if v.cache >= 0 {
-			opts = append(opts, rux.CachingWithNum(uint16(v.cache)))
+		if l.Opts.Strict {
+			opts = append(opts, rux.StrictLastSlash)
 		}
-		r := rux.New(opts...)
+		if v.cache >= 0 {
+			opts = append(opts, cachingOpts(v.cache)...)
+		}
+		r := newRouter(opts...)
 		routes := []*rux.Route{}
 		regOK := true
 		for i, e := range l.T {
@@ -218,11 +223,14 @@ func resolveRun(st *resolveState, l resolveLine) {
 				path := st.paths[q]
 				code := codes[x]
 				effq := q
+				if x < len(l.NQ) {
+					effq = l.NQ[x]
+				}
 				if l.EffQ != 0 {
 					effq = l.EffQ
 				}
 				for pass := 0; pass < passes; pass++ {
-					where := fmt.Sprintf("%s %s on %v hmna=%v hfb=%v intercept=%q (%s, pass %d)", m, path, texts, l.Opts.Hmna, l.Opts.Hfb, icpt, v.name, pass+1)
+					where := fmt.Sprintf("%s %s on %v hmna=%v hfb=%v strict=%v intercept=%q (%s, pass %d)", m, path, texts, l.Opts.Hmna, l.Opts.Hfb, l.Opts.Strict, icpt, v.name, pass+1)
 					ext := map[string]any{"method": m, "path": path, "router": v.name}
 					// ---- Match
 					var route *rux.Route
